@@ -883,3 +883,17 @@ func Printable(s string) string {
 
 // Transcoded violates R19.17.
 func Transcoded(r io.Reader) (io.Reader, error) { return charset.NewReader(r, "") }
+
+// scratchPool / WithScratch violate R3.14: the scratch slice goes back with its contents.
+var scratchPool = sync.Pool{New: func() any { return make([]int, 0, 8) }}
+
+func WithScratch(vals []int) int {
+	s := scratchPool.Get().([]int)
+	s = append(s, vals...)
+	sum := 0
+	for _, v := range s {
+		sum += v
+	}
+	scratchPool.Put(s)
+	return sum
+}
